@@ -332,6 +332,26 @@ fn d_box_open_detached_inplace(o: &Ops, w: &[u8]) -> Opened {
     let before = w[MAC..].to_vec();
     fin(r, b, &before)
 }
+// in-place opens on a buffer that has just been through a REJECTED attempt (a receiver trying the keys of a key ring): the
+// rejected attempt must have left the box as it was, so that the attempt with the right key still opens it
+fn d_sb_open_easy_inplace_retry(o: &Ops, w: &[u8]) -> Opened {
+    let mut b = w.to_vec();
+    let mut wrong = o.key; wrong[7] ^= 0x10;
+    if csb::crypto_secretbox_open_easy_inplace(&mut b, &o.nonce, &wrong).is_ok() { return Opened { ok: false, msg: vec![], leak: None }; }
+    match csb::crypto_secretbox_open_easy_inplace(&mut b, &o.nonce, &o.key) {
+        Ok(()) => { b.truncate(w.len() - MAC); Opened { ok: true, msg: b, leak: None } }
+        Err(e) => { note_err(&e); Opened { ok: false, msg: vec![], leak: None } }
+    }
+}
+fn d_box_open_easy_inplace_retry(o: &Ops, w: &[u8]) -> Opened {
+    let mut b = w.to_vec();
+    let mut wrong = o.rsk; wrong[7] ^= 0x10;
+    if cb::crypto_box_open_easy_inplace(&mut b, &o.nonce, &o.spk, &wrong).is_ok() { return Opened { ok: false, msg: vec![], leak: None }; }
+    match cb::crypto_box_open_easy_inplace(&mut b, &o.nonce, &o.spk, &o.rsk) {
+        Ok(()) => { b.truncate(w.len() - MAC); Opened { ok: true, msg: b, leak: None } }
+        Err(e) => { note_err(&e); Opened { ok: false, msg: vec![], leak: None } }
+    }
+}
 fn d_box_open_easy_inplace(o: &Ops, w: &[u8]) -> Opened {
     let mut b = w.to_vec();
     let r = cb::crypto_box_open_easy_inplace(&mut b, &o.nonce, &o.spk, &o.rsk);
@@ -653,7 +673,7 @@ pub fn open_impls(cons: &str, u: &str) -> Vec<(&'static str, OpenFn)> {
     let mut r: Vec<(&'static str, OpenFn)> = match (cons, u) {
         ("secretbox", "open_easy") => vec![("dryoc crypto_secretbox_open_easy", d_sb_open_easy), ("dryoc crypto_secretbox_open_easy (buffer of the genuine length)", d_sb_open_easy_g), ("sodium crypto_secretbox_open_easy", so_sb_open_easy)],
         ("secretbox", "open_detached") => vec![("dryoc crypto_secretbox_open_detached", d_sb_open_detached), ("dryoc crypto_secretbox_open_detached (buffer of the genuine length)", d_sb_open_detached_g), ("sodium crypto_secretbox_open_detached", so_sb_open_detached)],
-        ("secretbox", "open_easy_inplace") => vec![("dryoc crypto_secretbox_open_easy_inplace", d_sb_open_easy_inplace)],
+        ("secretbox", "open_easy_inplace") => vec![("dryoc crypto_secretbox_open_easy_inplace", d_sb_open_easy_inplace), ("dryoc crypto_secretbox_open_easy_inplace (after a rejected attempt on the same buffer)", d_sb_open_easy_inplace_retry)],
         ("secretbox", "obj_from_bytes") => vec![("VecBox::from_bytes+decrypt_to_vec", o_sb_from_bytes)],
         ("secretbox", "obj_parts") => vec![("DryocSecretBox<Stack,Vec>::from_parts+decrypt", stackvec::sb_open_parts), ("DryocSecretBox<[u8],Vec>::from_parts+decrypt", arrvec::sb_open_parts),
                                            ("VecBox::with_data_and_mac+decrypt", o_sb_with_data_and_mac)],
@@ -661,7 +681,7 @@ pub fn open_impls(cons: &str, u: &str) -> Vec<(&'static str, OpenFn)> {
         ("box", "open_detached") => vec![("dryoc crypto_box_open_detached", d_box_open_detached), ("dryoc crypto_box_open_detached (buffer of the genuine length)", d_box_open_detached_g), ("dryoc crypto_box_open_detached_inplace", d_box_open_detached_inplace),
                                          ("dryoc crypto_box_open_detached_afternm", d_box_open_detached_afternm), ("dryoc crypto_box_open_detached_afternm (buffer of the genuine length)", d_box_open_detached_afternm_g), ("dryoc crypto_box_open_detached_afternm_inplace", d_box_open_detached_afternm_inplace),
                                          ("sodium crypto_box_open_detached", so_box_open_detached), ("sodium crypto_box_open_detached_afternm", so_box_open_detached_afternm)],
-        ("box", "open_easy_inplace") => vec![("dryoc crypto_box_open_easy_inplace", d_box_open_easy_inplace)],
+        ("box", "open_easy_inplace") => vec![("dryoc crypto_box_open_easy_inplace", d_box_open_easy_inplace), ("dryoc crypto_box_open_easy_inplace (after a rejected attempt on the same buffer)", d_box_open_easy_inplace_retry)],
         ("box", "obj_from_bytes") => vec![("VecBox::from_bytes+decrypt_to_vec", o_db_from_bytes), ("VecBox::from_bytes+precalc_decrypt_to_vec", o_db_from_bytes_precalc)],
         ("box", "obj_parts") => vec![("DryocBox<Stack,Vec>::from_parts+decrypt", stackvec::db_open_parts), ("DryocBox<[u8],Vec>::from_parts+decrypt", arrvec::db_open_parts),
                                      ("DryocBox<Stack,Vec>::from_parts+precalc_decrypt", stackvec::db_open_parts_precalc), ("VecBox::new_with_data_and_mac+decrypt", o_db_with_data_and_mac)],
@@ -883,8 +903,12 @@ pub fn cmd_tamper(args: &[String]) {
                 "flip_key" => for byte in 0..32 { for bit in 0..8 {
                     if thin && !(byte % 13 == 0 && bit == 5) { continue; }
                     let mut o2 = ops.clone();
-                    // the symmetric key: the secretbox key, or the precomputed key of a box
+                    // the symmetric key: the secretbox key, or the precomputed key of a box; for the opens that derive the key
+                    // themselves, the recipient's secret key (bits that clamping discards are left alone: they denote the same key)
                     o2.key[byte] ^= 1 << bit; o2.pre_r[byte] ^= 1 << bit;
+                    let clamped_away = (byte == 0 && bit < 3) || (byte == 31 && bit >= 6);
+                    if cons != "secretbox" && clamped_away { continue; }
+                    o2.rsk[byte] ^= 1 << bit;
                     fam.push((o2, w.clone(), format!("key byte {} bit {}", byte, bit)));
                 } },
                 "truncate" => for n in 1..=w.len() { if thin && ![1usize, 15, 16, 17, w.len() / 2, w.len() - MAC, w.len()].contains(&n) { continue; } fam.push((ops.clone(), w[..w.len() - n].to_vec(), format!("truncated by {}", n))); },
@@ -894,9 +918,10 @@ pub fn cmd_tamper(args: &[String]) {
             for (o2, c, how) in fam.iter() {
                 if detached && c.len() < MAC { continue; }           // the tag is a fixed-length array there
                 for (on, of) in opens.iter() {
-                    let pre = on.contains("afternm") || on.contains("precalc");
-                    if fault == "flip_key" && cons == "box" && !pre { continue; }  // the symmetric key of a box is its precomputed key
                     rep.evaluations += 1;
+                    // now and then the genuine box is opened first: whatever an implementation remembers from an accepted open
+                    // (a shared key, a peer) must not make it accept the tampered one that follows
+                    if fault != "none" && rep.evaluations % 4 == 0 { let _ = catch(|| of(&ops, &w)); }
                     take_err();
                     match catch(|| of(o2, c)) {
                         Ok(r) => {
